@@ -117,6 +117,7 @@ func NewHTTPStoreCache(key []byte, store store.Store) *httpCache {
 
 // Get get http cache
 func (hc *httpCache) Get() (status Status, response *HTTPResponse) {
+	verifPoint("get.enter")
 	hc.mu.Lock()
 	status, done, response := hc.get()
 	hc.mu.Unlock()
